@@ -125,7 +125,7 @@ func svPropStage(e *svEnv, id governance.ProposalID) (*governance.Proposal, gove
 // SV_C14_funds_and_stage: one create / fund / withdraw-funds / cancel
 // transaction from an arbitrary proposal record.
 //
-// sv:bounds proposal absent, or funding / voting in the active store, or cancelled / under-funded in the failed store; arbitrary proposer among 2 parties, funding goal, funding deadline (any relation to the block height 20), per-funder contributions (present or absent); kind a choice; actor (proposer / funder field, who signs) any party, beneficiary any party; amounts any integer in {OLT, unregistered}; mempool-admitted regime
+// sv:bounds proposal absent, or funding / voting in the active store, or cancelled / under-funded in the failed store; arbitrary proposer among 2 parties, funding goal, funding deadline (any relation to the block height 20), per-funder contributions (present or absent); kind a choice; actor (proposer / funder field, who signs) any party, beneficiary any party; amounts any integer in {OLT, unregistered}; the shared proposal store's selected stage prefix (in-memory residue) active or failed; mempool-admitted regime
 // sv:outside vote, expire and finalise (the tally and the fund distribution are not yet encoded); configuration-update proposals; histories
 // sv:goal stage moves only forward: fund never moves a proposal that is not funding or is past its deadline, and moves it to voting exactly when the contributions reach the goal; cancel only by the proposer, only while funding and before the deadline, moves it to the failed store as cancelled; withdraw only from a cancelled or under-funded (deadline passed, goal not met) proposal, at most the funder's own contribution, debiting the escrow by exactly what the beneficiary receives; the total record stays the sum of the contributions; create only for an id without a record in any stage store, escrowing exactly the initial funding
 func SV_C14_funds_and_stage() {
@@ -137,6 +137,8 @@ func SV_C14_funds_and_stage() {
 	actor := signers[0]
 	an := svPartyName(actor)
 	p0, st0 := svPropStage(e, svPropID)
+	residue := []governance.ProposalState{governance.ProposalStateActive, governance.ProposalStateFailed}[sv.Choice("residue.prefix", 2)]
+	e.beforeDeliver = func() { e.app.Context.proposalMaster.Proposal.WithPrefixType(residue) }
 	r := e.step(raw, signers, true)
 	p1, st1 := svPropStage(e, svPropID)
 	ok := r.resp.Code == 0
